@@ -95,6 +95,33 @@ def _try_pattern(caller, cont, dest):
     return t1["t"], tg[0], tg[1]
 
 
+def _match_pattern(caller, cont, dest, retty):
+    """cont: `_d = discriminant(dest); switch _d [..]` (an `if let` / `match` directly on the helper's result).  Returns the
+    targets taken for the success variant (Some / Ok) and for the failure variant (None / Err)."""
+    if cont is None or dest is None or dest["p"]:
+        return None
+    b1 = caller["blocks"][cont]
+    t1 = b1["t"]
+    if t1["k"] != "switch" or not b1["s"]:
+        return None
+    st = b1["s"][-1]
+    if st["k"] != "assign" or st["r"].get("k") != "discr" or st["r"]["place"]["l"] != dest["l"] or st["r"]["place"]["p"]:
+        return None
+    dp = t1["d"].get("m") or t1["d"].get("c")
+    if not dp or dp["l"] != st["p"]["l"]:
+        return None
+    if any(x["k"] == "assign" and x["p"]["p"] for x in b1["s"]):
+        return None
+    tg = dict((v, x) for v, x in t1["targets"])
+    if retty.startswith("std::option::Option<"):
+        okv, errv = 1, 0
+    elif retty.startswith("std::result::Result<"):
+        okv, errv = 0, 1
+    else:
+        return None
+    return tg.get(okv, t1["otherwise"]), tg.get(errv, t1["otherwise"])
+
+
 def _succs(t):
     if t["k"] == "goto":
         return [t["t"]]
@@ -159,9 +186,65 @@ def _kinds_at_exit(cj):
     return out
 
 
+def _split_by_kind(cj):
+    """Copy of the helper in which every block is duplicated per "what the return place holds on arrival" (nothing yet / Ok-ish /
+    Err-ish / unknown), so that each `return` of the copy is reached with one definite answer where the code determines it.
+    Returns (new body json, {return block index: kind})."""
+    blocks = cj["blocks"]
+    index, order = {}, []
+
+    def node(b, k):
+        key = (b, k)
+        if key not in index:
+            index[key] = len(order)
+            order.append(key)
+        return index[key]
+    node(0, None)
+    i = 0
+    edges = {}
+    while i < len(order):
+        b, k = order[i]
+        bl = blocks[b]
+        dk = _def_kind(bl)
+        # the terminator itself may set the return place (a call into _0): successors see the new kind
+        k_out = dk if dk is not None else k
+        # statements set _0 before the terminator; a call terminator sets it after: both are "on leaving the block"
+        t = bl["t"]
+        succ = {}
+        for x in _succs(t):
+            succ[x] = node(x, k_out)
+        if isinstance(t.get("unwind"), int):
+            succ[("u", t["unwind"])] = node(t["unwind"], k_out)
+        edges[i] = succ
+        i += 1
+        if len(order) > 6 * len(blocks) + 8:
+            return cj, {}
+    newb, ret_kind = [], {}
+    for ni, (b, k) in enumerate(order):
+        bl = copy.deepcopy(blocks[b])
+        t = bl["t"]
+        succ = edges[ni]
+        if "t" in t and isinstance(t["t"], int):
+            t["t"] = succ[t["t"]]
+        if "targets" in t:
+            t["targets"] = [[v, succ[x]] for v, x in t["targets"]]
+        if "otherwise" in t and isinstance(t["otherwise"], int):
+            t["otherwise"] = succ[t["otherwise"]]
+        if isinstance(t.get("unwind"), int):
+            t["unwind"] = succ[("u", t["unwind"])]
+        newb.append(bl)
+        if t["k"] == "return":
+            dk = _def_kind(blocks[b])
+            ret_kind[ni] = dk if dk is not None else k
+    nj = dict(cj)
+    nj["blocks"] = newb
+    return nj, ret_kind
+
+
 def inline_one(caller, bi, callee_name, cj):
     """Splice `cj` into `caller` at the call terminating block `bi`."""
     t = caller["blocks"][bi]["t"]
+    cj, ret_kind = _split_by_kind(cj)
     lo = len(caller["locals"])
     bo = len(caller["blocks"])
     po = len(caller.get("promoted") or [])
@@ -189,39 +272,45 @@ def inline_one(caller, bi, callee_name, cj):
     # `helper(..)?`: an edge into the helper's return on which the result is statically Ok / Err continues on that side of
     # the caller's `?` only (tail duplication of the return block and the two blocks of the `?`), so that dominance arguments
     # survive the splice
+    mp = _match_pattern(caller, cont, dest, re.sub(r"'[a-z_]+ ?", "", cj["locals"][0].get("ty", ""))) if tp is None else None
+    if mp is not None:
+        ok_t, err_t = mp
+        for r in ret_idx:
+            kind = ret_kind.get(r)
+            if kind not in ("ok", "err"):
+                continue
+            n1 = copy.deepcopy(caller["blocks"][cont])
+            i0 = len(caller["blocks"])
+            n1["t"] = {"k": "goto", "t": ok_t if kind == "ok" else err_t, "line": n1["t"].get("line")}
+            caller["blocks"].append(n1)
+            caller["blocks"][bo + r]["t"]["t"] = i0
     if tp is not None:
         c2, ok_t, brk_t = tp
         for r in ret_idx:
-            if cj["blocks"][r]["s"]:
-                continue                     # the return block itself computes something: leave it alone
-            kinds = _kinds_at_exit(cj)
-            for pi, pb in enumerate(cj["blocks"]):
-                if r not in _succs(pb["t"]):
-                    continue
-                kind = kinds.get(pi)
-                if kind not in ("ok", "err"):
-                    continue
-                rclone = copy.deepcopy(caller["blocks"][bo + r])
-                n1 = copy.deepcopy(caller["blocks"][cont])
-                n2 = copy.deepcopy(caller["blocks"][c2])
-                i0 = len(caller["blocks"])
-                rclone["t"] = {"k": "goto", "t": i0 + 1, "line": rclone["t"].get("line")}
-                n1["t"]["t"] = i0 + 2
-                if kind == "err":
-                    n1["t"]["always_break"] = True
-                else:
-                    # the payload is known: `_t = Continue(x)` instead of `_t = branch(Ok(x))`
-                    okdef = None
-                    for st in reversed(caller["blocks"][bo + pi]["s"]):
-                        if st["k"] == "assign" and st["p"]["l"] == lo and not st["p"]["p"] and st["r"].get("k") == "agg" and len(st["r"].get("ops", [])) == 1:
-                            okdef = st["r"]["ops"][0]
-                            break
-                    if okdef is not None and n1["t"].get("dest") and not n1["t"]["dest"]["p"]:
-                        n1["s"].append({"k": "assign", "p": copy.deepcopy(n1["t"]["dest"]), "r": {"k": "agg", "ak": "adt", "adt": "std::ops::ControlFlow", "vname": "Continue", "ops": [copy.deepcopy(okdef)]}, "line": n1["t"].get("line")})
-                        n1["t"] = {"k": "goto", "t": i0 + 2, "line": n1["t"].get("line")}
-                n2["t"] = {"k": "goto", "t": ok_t if kind == "ok" else brk_t, "line": n2["t"].get("line"), "exp": n2["t"].get("exp")}
-                caller["blocks"].extend([rclone, n1, n2])
-                _retarget(caller["blocks"][bo + pi]["t"], bo + r, i0)
+            kind = ret_kind.get(r)
+            if kind not in ("ok", "err"):
+                continue
+            n1 = copy.deepcopy(caller["blocks"][cont])
+            n2 = copy.deepcopy(caller["blocks"][c2])
+            i0 = len(caller["blocks"])
+            n1["t"]["t"] = i0 + 1
+            if kind == "err":
+                n1["t"]["always_break"] = True
+            else:
+                # the payload is known when the Ok(..) aggregate is built on the way into this return: `_t = Continue(x)`
+                okdef = None
+                for pb in caller["blocks"][bo:]:
+                    if (bo + r) in _succs(pb["t"]):
+                        for st in reversed(pb["s"]):
+                            if st["k"] == "assign" and st["p"]["l"] == lo and not st["p"]["p"] and st["r"].get("k") == "agg" and len(st["r"].get("ops", [])) == 1:
+                                okdef = st["r"]["ops"][0]
+                                break
+                if okdef is not None and n1["t"].get("dest") and not n1["t"]["dest"]["p"]:
+                    n1["s"].append({"k": "assign", "p": copy.deepcopy(n1["t"]["dest"]), "r": {"k": "agg", "ak": "adt", "adt": "std::ops::ControlFlow", "vname": "Continue", "ops": [copy.deepcopy(okdef)]}, "line": n1["t"].get("line")})
+                    n1["t"] = {"k": "goto", "t": i0 + 1, "line": n1["t"].get("line")}
+            n2["t"] = {"k": "goto", "t": ok_t if kind == "ok" else brk_t, "line": n2["t"].get("line"), "exp": n2["t"].get("exp")}
+            caller["blocks"].extend([n1, n2])
+            caller["blocks"][bo + r]["t"]["t"] = i0
     blk = caller["blocks"][bi]
     for i, a in enumerate(t["args"]):
         blk["s"].append({"k": "assign", "p": {"l": lo + 1 + i, "p": []}, "r": {"k": "use", "op": copy.deepcopy(a)}, "line": t.get("line"), "inl": callee_name})
